@@ -234,7 +234,13 @@ def type_pool(wd, rep, tier):
     groups = list(by.values())
     if tier == "quick":
         groups = groups[::4]
-    return groups
+    # named tuples under every namedtuple_as_dict / engine combination
+    rn = core.run_mc("MC_NT", wd, rep=rep, label="MC_NT (named-tuple option combinations as schema subjects)")
+    byn = {}
+    for rec in rn.printed:
+        if rec[0] == "vec":
+            byn.setdefault(jkey(rec[1]), (rec[1], []))[1].append(rec[2])
+    return groups + list(byn.values())
 
 
 def run(prop, tier, seed):
